@@ -111,6 +111,47 @@ theorem panicked_tx_not_successful (bs : BlockState) (tx : Tx)
       simp at hp
   exact ⟨hok, execTx_failed leafHash reg env bs tx hok⟩
 
+/-- Which effects survive a swallowed nested failure (the case `ok_tx_keeps_all` excludes), at any nesting depth: when a
+nested `Invoke` returns an error — the callee failed after performing the effects `new`, having itself neither swallowed a
+failure nor panicked — the caller, should it carry on, finds
+* the transaction cache holding EVERY write made so far: its own earlier ones and those of the failed callee (a failed
+  callee's writes are not rolled back; they are committed if the transaction eventually succeeds),
+* the event list and the cross-hash list holding ONLY what the failed frame emitted: everything the caller emitted
+  before the call is gone,
+* the context stack one frame deeper than before the call (the failed frame is never popped, so later `CheckWitness`
+  calls of the caller see the failed callee's frames).
+No shipped contract calls `NativeCall` (checked statically on every run), so this state is unreachable today. -/
+theorem nested_failure_survivors (n : Nat) (s : Svc) (sm : List (Bytes × Handler)) (addr : Addr) (args : Bytes)
+    (h : Handler) (s3 : Svc)
+    (hres : invokeBody leafHash (invokeF leafHash reg n) s sm addr args h = (.err, s3))
+    (hsw : s3.swallowed = s.swallowed) :
+    ∃ new, s3.effLog = s.effLog ++ new ∧
+      s3.cache = applyWrites s.cache (writesOf new) ∧
+      s3.notifications = notifsOf new ∧
+      List.Perm s3.crossHashes (crossesOf new) ∧
+      s.contexts.length + 1 ≤ s3.contexts.length := by
+  unfold invokeBody at hres
+  split at hres
+  · cases hres
+  · generalize hq : runProg leafHash (invokeF leafHash reg n) (h args) (enter s sm addr args) = q at hres
+    obtain ⟨o, s3'⟩ := q
+    cases o with
+    | some r => cases hres
+    | none =>
+      simp only at hres
+      have hs : s3' = s3 := (Prod.mk.inj hres).2
+      have hp : s3'.panicked = false := by
+        cases hpp : s3'.panicked with
+        | false => rfl
+        | true => rw [hpp] at hres; cases hres
+      subst hs
+      obtain ⟨new, h1, h2, h3, h4⟩ := failed_frame_survivors leafHash (invokeF leafHash reg n)
+        (invokeF_mono leafHash reg n) (invokeF_keeps leafHash reg n) s sm addr args (h args) s3' hq hp hsw
+      refine ⟨new, h1, h2, h3, h4, ?_⟩
+      have := runProg_lenMono leafHash (invokeF leafHash reg n) (invokeF_lenMono leafHash reg n) (h args) (enter s sm addr args)
+      rw [hq] at this
+      simpa [enter] using this
+
 /-- The recursion fuel of the model's nested `Invoke` is not a bound on what is modelled: the context stack refuses the
 1026th frame, so the fuel used by `execTx` never runs out — any larger amount gives the same final state and result
 for every registry and every starting state (the model-only outcome `diverge` is an artefact that is never decisive). -/
